@@ -1,57 +1,134 @@
-// Passive shims (probe): same API surface of sync/atomic as used by pion/ice.
+// Package matomic mirrors the complete API of sync/atomic: every operation is a scheduling point
+// (when a scheduler is installed) followed by the real atomic operation.
 package matomic
 
 import (
 	"sync/atomic"
+	"unsafe"
 
 	"github.com/pion/ice/v4/internal/zzmc"
 )
 
-func pt() { zzmc.Point(zzmc.CallerSite(3)) }
+func pt() {
+	if zzmc.Active() {
+		zzmc.Point(zzmc.CallerSite(3))
+	}
+}
 
-type (
-	Bool   struct{ v atomic.Bool }
-	Int32  struct{ v atomic.Int32 }
-	Int64  struct{ v atomic.Int64 }
-	Uint32 struct{ v atomic.Uint32 }
-	Uint64 struct{ v atomic.Uint64 }
-	Value  struct{ v atomic.Value }
-)
+type Bool struct{ v atomic.Bool }
 
-type Pointer[T any] struct{ v atomic.Pointer[T] }
+func (b *Bool) Load() bool                   { pt(); return b.v.Load() }
+func (b *Bool) Store(x bool)                 { pt(); b.v.Store(x) }
+func (b *Bool) Swap(x bool) bool             { pt(); return b.v.Swap(x) }
+func (b *Bool) CompareAndSwap(o, n bool) bool { pt(); return b.v.CompareAndSwap(o, n) }
 
-func (p *Pointer[T]) Load() *T   { pt(); return p.v.Load() }
-func (p *Pointer[T]) Store(x *T) { pt(); p.v.Store(x) }
-
-func (b *Bool) Load() bool   { pt(); return b.v.Load() }
-func (b *Bool) Store(x bool) { pt(); b.v.Store(x) }
+type Int32 struct{ v atomic.Int32 }
 
 func (i *Int32) Load() int32                      { pt(); return i.v.Load() }
 func (i *Int32) Store(x int32)                    { pt(); i.v.Store(x) }
 func (i *Int32) Add(d int32) int32                { pt(); return i.v.Add(d) }
+func (i *Int32) Swap(x int32) int32               { pt(); return i.v.Swap(x) }
+func (i *Int32) CompareAndSwap(o, n int32) bool   { pt(); return i.v.CompareAndSwap(o, n) }
+func (i *Int32) And(m int32) int32                { pt(); return i.v.And(m) }
+func (i *Int32) Or(m int32) int32                 { pt(); return i.v.Or(m) }
+
+type Int64 struct{ v atomic.Int64 }
+
 func (i *Int64) Load() int64                      { pt(); return i.v.Load() }
 func (i *Int64) Store(x int64)                    { pt(); i.v.Store(x) }
 func (i *Int64) Add(d int64) int64                { pt(); return i.v.Add(d) }
+func (i *Int64) Swap(x int64) int64               { pt(); return i.v.Swap(x) }
+func (i *Int64) CompareAndSwap(o, n int64) bool   { pt(); return i.v.CompareAndSwap(o, n) }
+func (i *Int64) And(m int64) int64                { pt(); return i.v.And(m) }
+func (i *Int64) Or(m int64) int64                 { pt(); return i.v.Or(m) }
+
+type Uint32 struct{ v atomic.Uint32 }
+
 func (i *Uint32) Load() uint32                    { pt(); return i.v.Load() }
 func (i *Uint32) Store(x uint32)                  { pt(); i.v.Store(x) }
 func (i *Uint32) Add(d uint32) uint32             { pt(); return i.v.Add(d) }
+func (i *Uint32) Swap(x uint32) uint32            { pt(); return i.v.Swap(x) }
+func (i *Uint32) CompareAndSwap(o, n uint32) bool { pt(); return i.v.CompareAndSwap(o, n) }
+func (i *Uint32) And(m uint32) uint32             { pt(); return i.v.And(m) }
+func (i *Uint32) Or(m uint32) uint32              { pt(); return i.v.Or(m) }
+
+type Uint64 struct{ v atomic.Uint64 }
+
 func (i *Uint64) Load() uint64                    { pt(); return i.v.Load() }
 func (i *Uint64) Store(x uint64)                  { pt(); i.v.Store(x) }
 func (i *Uint64) Add(d uint64) uint64             { pt(); return i.v.Add(d) }
+func (i *Uint64) Swap(x uint64) uint64            { pt(); return i.v.Swap(x) }
 func (i *Uint64) CompareAndSwap(o, n uint64) bool { pt(); return i.v.CompareAndSwap(o, n) }
+func (i *Uint64) And(m uint64) uint64             { pt(); return i.v.And(m) }
+func (i *Uint64) Or(m uint64) uint64              { pt(); return i.v.Or(m) }
 
-func (v *Value) Load() any                     { pt(); return v.v.Load() }
-func (v *Value) Store(x any)                   { pt(); v.v.Store(x) }
-func (v *Value) CompareAndSwap(o, n any) bool  { pt(); return v.v.CompareAndSwap(o, n) }
+type Uintptr struct{ v atomic.Uintptr }
 
-func AddInt64(p *int64, d int64) int64     { pt(); return atomic.AddInt64(p, d) }
-func AddUint32(p *uint32, d uint32) uint32 { pt(); return atomic.AddUint32(p, d) }
-func AddUint64(p *uint64, d uint64) uint64 { pt(); return atomic.AddUint64(p, d) }
-func LoadInt32(p *int32) int32             { pt(); return atomic.LoadInt32(p) }
-func LoadInt64(p *int64) int64             { pt(); return atomic.LoadInt64(p) }
-func LoadUint32(p *uint32) uint32          { pt(); return atomic.LoadUint32(p) }
-func LoadUint64(p *uint64) uint64          { pt(); return atomic.LoadUint64(p) }
-func StoreInt32(p *int32, v int32)         { pt(); atomic.StoreInt32(p, v) }
-func StoreInt64(p *int64, v int64)         { pt(); atomic.StoreInt64(p, v) }
-func StoreUint32(p *uint32, v uint32)      { pt(); atomic.StoreUint32(p, v) }
-func StoreUint64(p *uint64, v uint64)      { pt(); atomic.StoreUint64(p, v) }
+func (i *Uintptr) Load() uintptr                    { pt(); return i.v.Load() }
+func (i *Uintptr) Store(x uintptr)                  { pt(); i.v.Store(x) }
+func (i *Uintptr) Add(d uintptr) uintptr            { pt(); return i.v.Add(d) }
+func (i *Uintptr) Swap(x uintptr) uintptr           { pt(); return i.v.Swap(x) }
+func (i *Uintptr) CompareAndSwap(o, n uintptr) bool { pt(); return i.v.CompareAndSwap(o, n) }
+
+type Value struct{ v atomic.Value }
+
+func (v *Value) Load() any                    { pt(); return v.v.Load() }
+func (v *Value) Store(x any)                  { pt(); v.v.Store(x) }
+func (v *Value) Swap(x any) any               { pt(); return v.v.Swap(x) }
+func (v *Value) CompareAndSwap(o, n any) bool { pt(); return v.v.CompareAndSwap(o, n) }
+
+type Pointer[T any] struct{ v atomic.Pointer[T] }
+
+func (p *Pointer[T]) Load() *T                    { pt(); return p.v.Load() }
+func (p *Pointer[T]) Store(x *T)                  { pt(); p.v.Store(x) }
+func (p *Pointer[T]) Swap(x *T) *T                { pt(); return p.v.Swap(x) }
+func (p *Pointer[T]) CompareAndSwap(o, n *T) bool { pt(); return p.v.CompareAndSwap(o, n) }
+
+// ---- package-level functions
+
+func AddInt32(p *int32, d int32) int32       { pt(); return atomic.AddInt32(p, d) }
+func AddInt64(p *int64, d int64) int64       { pt(); return atomic.AddInt64(p, d) }
+func AddUint32(p *uint32, d uint32) uint32   { pt(); return atomic.AddUint32(p, d) }
+func AddUint64(p *uint64, d uint64) uint64   { pt(); return atomic.AddUint64(p, d) }
+func AddUintptr(p *uintptr, d uintptr) uintptr { pt(); return atomic.AddUintptr(p, d) }
+
+func LoadInt32(p *int32) int32       { pt(); return atomic.LoadInt32(p) }
+func LoadInt64(p *int64) int64       { pt(); return atomic.LoadInt64(p) }
+func LoadUint32(p *uint32) uint32    { pt(); return atomic.LoadUint32(p) }
+func LoadUint64(p *uint64) uint64    { pt(); return atomic.LoadUint64(p) }
+func LoadUintptr(p *uintptr) uintptr { pt(); return atomic.LoadUintptr(p) }
+func LoadPointer(p *unsafe.Pointer) unsafe.Pointer { pt(); return atomic.LoadPointer(p) }
+
+func StoreInt32(p *int32, v int32)       { pt(); atomic.StoreInt32(p, v) }
+func StoreInt64(p *int64, v int64)       { pt(); atomic.StoreInt64(p, v) }
+func StoreUint32(p *uint32, v uint32)    { pt(); atomic.StoreUint32(p, v) }
+func StoreUint64(p *uint64, v uint64)    { pt(); atomic.StoreUint64(p, v) }
+func StoreUintptr(p *uintptr, v uintptr) { pt(); atomic.StoreUintptr(p, v) }
+func StorePointer(p *unsafe.Pointer, v unsafe.Pointer) { pt(); atomic.StorePointer(p, v) }
+
+func SwapInt32(p *int32, v int32) int32       { pt(); return atomic.SwapInt32(p, v) }
+func SwapInt64(p *int64, v int64) int64       { pt(); return atomic.SwapInt64(p, v) }
+func SwapUint32(p *uint32, v uint32) uint32   { pt(); return atomic.SwapUint32(p, v) }
+func SwapUint64(p *uint64, v uint64) uint64   { pt(); return atomic.SwapUint64(p, v) }
+func SwapUintptr(p *uintptr, v uintptr) uintptr { pt(); return atomic.SwapUintptr(p, v) }
+func SwapPointer(p *unsafe.Pointer, v unsafe.Pointer) unsafe.Pointer { pt(); return atomic.SwapPointer(p, v) }
+
+func CompareAndSwapInt32(p *int32, o, n int32) bool       { pt(); return atomic.CompareAndSwapInt32(p, o, n) }
+func CompareAndSwapInt64(p *int64, o, n int64) bool       { pt(); return atomic.CompareAndSwapInt64(p, o, n) }
+func CompareAndSwapUint32(p *uint32, o, n uint32) bool    { pt(); return atomic.CompareAndSwapUint32(p, o, n) }
+func CompareAndSwapUint64(p *uint64, o, n uint64) bool    { pt(); return atomic.CompareAndSwapUint64(p, o, n) }
+func CompareAndSwapUintptr(p *uintptr, o, n uintptr) bool { pt(); return atomic.CompareAndSwapUintptr(p, o, n) }
+func CompareAndSwapPointer(p *unsafe.Pointer, o, n unsafe.Pointer) bool {
+	pt()
+
+	return atomic.CompareAndSwapPointer(p, o, n)
+}
+
+func AndInt32(p *int32, m int32) int32     { pt(); return atomic.AndInt32(p, m) }
+func AndInt64(p *int64, m int64) int64     { pt(); return atomic.AndInt64(p, m) }
+func AndUint32(p *uint32, m uint32) uint32 { pt(); return atomic.AndUint32(p, m) }
+func AndUint64(p *uint64, m uint64) uint64 { pt(); return atomic.AndUint64(p, m) }
+func OrInt32(p *int32, m int32) int32      { pt(); return atomic.OrInt32(p, m) }
+func OrInt64(p *int64, m int64) int64      { pt(); return atomic.OrInt64(p, m) }
+func OrUint32(p *uint32, m uint32) uint32  { pt(); return atomic.OrUint32(p, m) }
+func OrUint64(p *uint64, m uint64) uint64  { pt(); return atomic.OrUint64(p, m) }
